@@ -16,7 +16,7 @@ META = {
                    'the bond factor, full step on the last site, mirrored sweep; two-site: evolve the MERGED PAIR, SVD OF THE EVOLVED PAIR, backward-evolve the '
                    'carried core. Drivers tdvp1site / tdvp2site / tdvp are run end to end: sweep schedule, every effective operator == P^H H P (frame of the '
                    'current iterate), list = initial state (by identity) + one state per step, normalisation, inputs unchanged. krylov: Lanczos coefficients '
-                   'alpha_j == <w_j, v_j>, beta_j == ||w_j|| placed tridiagonally, argument of the small exponential == -i h T, result == sum_j (exp(-ihT) e_1)_j v_j.',
+                   'alpha_j == <w_j, v_j>, beta_j == ||w_j|| placed tridiagonally, argument of the small exponential == -i h T, result == sum_j (exp(-ihT) e_1)_j v_j. trajectory: the list returned for two steps starts with the list returned for one step (an entry stored for step 1 is not touched by step 2), with and without normalisation; normalised states == un-normalised state / its norm.',
     'bounds': {'quick': 'micro-steps: ranks (r1, r2[, r3]) in {1,2}, mode size 2, every position class (first/inner/last) and direction; drivers: chain lengths 2-3, '
                         'ranks {1,2}, complex Hermitian operators H = C + C^H with C of rank 1, 1-2 steps; krylov: dimension 1-2 (dimension 2 on chain length 2 only; dimension 3, and dimension 2 on chain length 3, end in an undecided look-up of the small exponential and are not claimed)',
                'thorough': 'mode size 3 micro-steps, chain length 4 drivers'},
@@ -426,6 +426,42 @@ def drivers(ctx, shape, method, steps, normalize):
         ctx.check('%s: one norm per step, p = normalize' % method, len(ns.calls) == steps and all(c['p'] == normalize for c in ns.calls))
     ctx.eq('%s: operator unchanged' % method, D.as_matrix(H.full(), d), Hd)
     ctx.eq('%s: initial state unchanged' % method, D.as_matrix(x0.full(), d), x0d)
+
+
+# ------------------------------------------------------------ trajectory: earlier entries are final
+@scenario('C11', 'trajectory', lambda tier: [{'shape': s, 'method': m, 'normalize': nz} for s in (DRV_SHAPES[0], DRV_SHAPES[2]) for m in ('tdvp1site', 'tdvp2site')
+                                              for nz in (0, 1, 2) if not (len(s['dims']) > 2 and (nz == 1 or m == 'tdvp2site') and tier == 'quick')])
+def trajectory(ctx, shape, method, normalize):
+    """the list returned for two steps starts with the list returned for one step: the state stored for step 1 is not touched by step 2
+    (same environment answers in both runs: stubs are functions of the call sequence); every returned state is a distinct object.
+    The hybrid driver is not run here (it raises on these chain lengths: known finding of the `drivers` scenario)."""
+    TT, ode = ctx.R.TT, ctx.R.ode
+    if ctx.mode == 'tv':
+        from symtt.core import SkipTV
+        raise SkipTV()
+    d = len(shape['dims'])
+    sx = {'rows': shape['dims'], 'cols': [1] * d, 'ranks': shape['rx']}
+    from .C09 import NormStub
+
+    def go(steps):
+        free_policy(ctx)
+        h = ctx.scalar('h')
+        H, Hd = _herm(ctx, d, shape['dims'])
+        x0 = TT(mk_cores(ctx, 'x', sx, True))
+        with NormStub(ctx, TT) as ns:
+            if method == 'tdvp1site':
+                sol = ode.tdvp1site(H, x0, h, steps, normalize=normalize)
+            else:
+                sol = ode.tdvp2site(H, x0, h, steps, threshold=0, max_rank=50, normalize=normalize)
+        return sol, [D.as_matrix(t.full(), d) for t in sol], ns.calls
+    sol1, v1, n1 = go(1)
+    sol2, v2, n2 = go(2)
+    ctx.check('%s: 2 steps give 3 states, all distinct objects' % method, len(sol2) == 3 and len(set(id(t) for t in sol2)) == 3)
+    ctx.eq('%s(normalize=%d): state stored for step 1 of a two-step run == result of the one-step run' % (method, normalize), v2[1], v1[1], tol=1e-9)
+    if normalize and len(n2) == 2:
+        for k in range(2):
+            ctx.eq('%s(normalize=%d): state %d == un-normalised state of that step / its norm' % (method, normalize, k + 1), v2[k + 1],
+                   D.scale(ctx, ctx.const_frac(1) / n2[k]['nu'], n2[k]['arg']), tol=1e-9)
 
 
 # ------------------------------------------------------------------------------ krylov
